@@ -78,7 +78,7 @@ fn gen_group(ctx: &mut Ctx, rng: &mut Rng, depth: u32) -> Group {
     let mut g = new_group(ctx, rng);
     let n = rng.below(4);
     for _ in 0..n {
-        if depth > 0 && rng.chance(2, 5) {
+        if depth > 0 && rng.chance(1, 2) {
             let c = gen_group(ctx, rng, depth - 1);
             g.children.push(Node::Group(c));
         } else {
@@ -94,18 +94,39 @@ fn gen_group(ctx: &mut Ctx, rng: &mut Rng, depth: u32) -> Group {
 }
 
 fn edit_entry(e: &mut Entry, t: i64, rng: &mut Rng) {
-    match rng.below(4) {
+    // values come from small pools so that both replicas can arrive at the same content by
+    // different histories, and an edit can restore an earlier value
+    match rng.below(6) {
         0 => {
-            e.fields.insert("UserName".into(), Value::Unprotected(format!("u{}", t)));
+            e.fields.insert("UserName".into(), Value::Unprotected(format!("u{}", rng.below(3))));
         }
         1 => {
-            e.fields.insert("Title".into(), Value::Unprotected(format!("t{}", t)));
+            e.fields.insert("Title".into(), Value::Unprotected(format!("t{}", rng.below(3))));
         }
         2 => {
-            e.tags.push(format!("tag{}", t));
+            if rng.chance(1, 2) { e.tags.push(format!("tag{}", rng.below(2))); } else { e.tags.clear(); }
+        }
+        3 => {
+            e.fields.insert("Password".into(), Value::Protected(format!("p{}", rng.below(3)).as_bytes().into()));
+        }
+        4 => {
+            // revert to the content of an earlier committed version, if there is one
+            let old = e.history.as_ref().and_then(|h| {
+                let items = h.get_entries();
+                if items.len() >= 2 { Some(items[rng.below(items.len() as u64) as usize].clone()) } else { None }
+            });
+            match old {
+                Some(o) => {
+                    e.fields = o.fields;
+                    e.tags = o.tags;
+                }
+                None => {
+                    e.fields.insert("Notes".into(), Value::Unprotected(format!("n{}", t)));
+                }
+            }
         }
         _ => {
-            e.fields.insert("Password".into(), Value::Protected(format!("p{}", t).as_bytes().into()));
+            e.fields.insert("UserName".into(), Value::Unprotected(format!("u{}", t)));
         }
     }
     e.times.set_last_modification(mk_time(t));
@@ -270,8 +291,16 @@ pub fn random_op(db: &mut Database, ctx: &mut Ctx, rng: &mut Rng, allow_nonempty
                         ids.extend(g2);
                         ids.extend(e2);
                     }
-                    if rng.chance(1, 2) {
-                        ids.reverse();
+                    match rng.below(3) {
+                        0 => ids.reverse(),
+                        1 => {
+                            // random order of the tombstones
+                            for i in (1..ids.len()).rev() {
+                                let j = rng.below(i as u64 + 1) as usize;
+                                ids.swap(i, j);
+                            }
+                        }
+                        _ => {}
                     }
                     for u in ids {
                         db.deleted_objects.objects.push(DeletedObject { uuid: u, deletion_time: mk_time(t) });
@@ -301,7 +330,7 @@ pub fn random_op(db: &mut Database, ctx: &mut Ctx, rng: &mut Rng, allow_nonempty
 pub fn ancestor(rng: &mut Rng) -> (Database, Ctx) {
     let mut ctx = Ctx { clock: 1000, next_uuid: 0 };
     let mut db = Database::new(Default::default());
-    let depth = rng.below(3) as u32;
+    let depth = rng.below(5) as u32;
     db.root = gen_group(&mut ctx, rng, depth);
     db.root.name = "Root".into();
     // a tombstone of a node nobody has, already in the ancestor
@@ -613,6 +642,35 @@ pub fn evaluate(prop: &str, c: &Case, first: &MergeRun) -> Option<(String, Optio
                                     if gone && !after_tomb.contains(&o.uuid) {
                                         return Some((format!("entry {} removed without a tombstone", o.uuid.as_u128()), None));
                                     }
+                                }
+                            }
+                        }
+                    }
+                    // group rule: a tombstoned group that is still present must be justified - it is not
+                    // empty, or it was modified at or after the deletion
+                    for o in &c.src.deleted_objects.objects {
+                        if dest_tomb.contains(&o.uuid) {
+                            continue;
+                        }
+                        if let Some(g) = group_ref(&d1.root, o.uuid) {
+                            if g.uuid != d1.root.uuid && g.children.is_empty() {
+                                if let Some(lm) = g.times.get_last_modification() {
+                                    if *lm < o.deletion_time {
+                                        return Some((format!("group {} is empty and older than its deletion but survived", o.uuid.as_u128()), None));
+                                    }
+                                }
+                            }
+                            if after_tomb.contains(&o.uuid) {
+                                return Some((format!("group {} kept but tombstone added", o.uuid.as_u128()), None));
+                            }
+                        } else if group_ref(&c.dest.root, o.uuid).is_some() {
+                            // removed: it must have been strictly older than the deletion
+                            let lm = group_ref(&c.dest.root, o.uuid).unwrap().times.get_last_modification().cloned();
+                            let slm = group_ref(&c.src.root, o.uuid).and_then(|g| g.times.get_last_modification().cloned());
+                            let newest = match (lm, slm) { (Some(a), Some(b)) => Some(a.max(b)), (a, None) => a, (None, b) => b };
+                            if let Some(lm) = newest {
+                                if lm >= o.deletion_time && lm == group_ref(&c.dest.root, o.uuid).unwrap().times.get_last_modification().cloned().unwrap() {
+                                    return Some((format!("group {} was deleted although modified at or after the deletion", o.uuid.as_u128()), None));
                                 }
                             }
                         }
